@@ -78,9 +78,10 @@ Proof. vm_compute. repeat split. Qed.
 
 (* ------------------------------------------------------------------ what fails without the hypotheses *)
 
-(* C09, hypothesis dirs_agree: with a work directory nested three deep, `add` creates
-   <layer>/ov (all of MkdirAll's prefixes) which the property's created_by_add does not list;
-   the pristine tree is deleted outright, the property predicate calls <layer>/ov user data. *)
+(* C09: with a work directory nested three deep, `add` creates <layer>/ov and <layer>/ov/x
+   (all of MkdirAll's prefixes).  The first version of the property predicate did not list
+   them in created_by_add and failed on this world; the corrected predicate holds on it (and
+   the world satisfies the theorem's hypotheses). *)
 Definition cfg1 : cfgT := MkCfg (bs "/lc") (bs "/lc/layers") (bs "build") (bs "packages") (bs "generated")
   (bs "ov/x/workdir") (bs "ov/x/upperdir") (bs "/lc/exports") (bs "packages") (bs "generated").
 Definition fs1 : fsT :=
@@ -97,16 +98,18 @@ Definition fs1 : fsT :=
     (bs "/lc/layers/dev1/ov/x/workdir", Dir);
     (bs "/lc/layers/dev1/ov/x/upperdir", Dir) ].
 Definition w1 : wobs := MkWO fs1 ks0.
-Example C09_refuted_deep_workdir :
-  C09.step_spec cfg1 w1 (view_of_model cfg1 w1 (env0 NoFault) (CRemove (bs "dev1") false) []) = false.
-Proof. vm_compute. reflexivity. Qed.
-(* ... although fs1 is exactly what `add dev1 base1` makes of the tree before it *)
+Example C09_deep_workdir_holds :
+  v_res (view_of_model cfg1 w1 (env0 NoFault) (CRemove (bs "dev1") false) []) = ROk
+  /\ exists_ (wo_fs (v_after (view_of_model cfg1 w1 (env0 NoFault) (CRemove (bs "dev1") false) []))) (bs "/lc/layers/dev1") = false
+  /\ C09.step_spec cfg1 w1 (view_of_model cfg1 w1 (env0 NoFault) (CRemove (bs "dev1") false) []) = true.
+Proof. vm_compute. repeat split. Qed.
+(* fs1 is exactly what `add dev1 base1` makes of the tree before it *)
 Example C09_deep_workdir_is_pristine :
   let v := view_of_model cfg1 (MkWO (firstn 8 fs1) ks0) (env0 NoFault) (CAdd (bs "dev1") (bs "base1") []) [] in
   v_res v = ROk /\ fs_beq (wo_fs (v_after v)) fs1 = true.
 Proof. vm_compute. split; reflexivity. Qed.
-Example C09_deep_workdir_hyp : wf_remove cfg1 fs1 (bs "dev1") = false.
-Proof. vm_compute. reflexivity. Qed.
+Example C09_deep_workdir_hyp : wf_remove cfg1 fs1 (bs "dev1") = true /\ wf_remove_cfg cfg1 fs1 (bs "dev1") = true.
+Proof. vm_compute. split; reflexivity. Qed.
 
 (* C11 (b), hypothesis cmd_ok (add): `add -config /tmp/mine.conf` writes a layerconfig whose
    imports come from a file the property predicate does not count among the old versions *)
